@@ -24,9 +24,10 @@ func RebaseRef(baseRef string, ref string) string {
 		return ref
 	}
 
-	parts := strings.Split(ref, "#")
+	// NOTE: a fragment may itself contain (unescaped at this point) '#' characters: only split on the first one
+	parts := strings.SplitN(ref, "#", 2)
 
-	baseParts := strings.Split(baseRef, "#")
+	baseParts := strings.SplitN(baseRef, "#", 2)
 	baseURL, _ := url.Parse(baseParts[0])
 	if strings.HasPrefix(ref, "#") {
 		if baseURL.Host == "" {
